@@ -571,13 +571,22 @@ def marker(rep, c):
                  "column unless the end column is strictly smaller: every write to that column is dominated by a "
                  "comparison with the end column that is false for start <= end (start and end are only compared, so "
                  "the three orderings <, =, > are all the cases there are)")
+    # the function that yields the reported (line, column) of the start: returns a pair and matches on the location
+    starts = set()
+    for b in c.bodies:
+        if b.get("impl_self") != "pest::error::Error" or b.get("body") is None or b.get("exp") or b.get("impl_trait"):
+            continue
+        if str(b["body"].get("ty", "")).replace(" ", "") == "(usize,usize)" and any(
+                kind(x) == "Match" and "LineColLocation" in str(x.get("sty", "")) for x in walk(b["body"])):
+            starts.add(b["path"])
+
+    def calls_start(e):
+        return any(kind(x) in ("Call", "MethodCall") and callee(x) in starts for x in walk(e))
     cands = []
     for b in c.bodies:
         if b.get("impl_self") != "pest::error::Error" or b.get("body") is None or b.get("exp") or b.get("impl_trait"):
             continue
-        if any(kind(x) == "Lit" and x.get("v") in ("^", "'^'") for x in walk(b["body"])) and \
-                any(kind(x) in ("Call", "MethodCall") and str(callee(x)).endswith("Error::<R>::start") or
-                    (kind(x) == "MethodCall" and x.get("m") == "start") for x in walk(b["body"])):
+        if any(kind(x) == "Lit" and x.get("v") in ("^", "'^'") for x in walk(b["body"])) and calls_start(b["body"]):
             cands.append(b)
     if not cands:
         r.lost("the marker-row function of pest::error::Error (pushes '^', reads self.start())")
@@ -587,9 +596,7 @@ def marker(rep, c):
         modes = hirq.binding_modes(b)
         ctx = hirq.Ctx(b)
         # the mutable local holding the start column
-        cols = [lid for lid, (init, st) in lets.items() if init is not None and modes.get(lid) and any(
-            kind(x) == "MethodCall" and x.get("m") == "start" or (kind(x) == "Call" and str(callee(x)).endswith("::start"))
-            for x in walk(init))]
+        cols = [lid for lid, (init, st) in lets.items() if init is not None and modes.get(lid) and calls_start(init)]
         if not cols:
             r.instance(b["name"] + ":immutable", where(b["body"]), "the start column is never rewritten")
             continue
